@@ -407,9 +407,10 @@ def rule_statewalk(repo: Repo) -> RuleResult:
         tp = U.safe_trace(p, pa) if pa is not None else set()
         tf = U.safe_trace(p, fa) if fa is not None else set()
         flows = lambda paths, callee: any(x[:2] == ("self", f"call:{callee}") and any(s_.startswith("in:") for s_ in x[2:]) for x in paths)
-        if not flows(tp, "parse_grounded_predicate") or is_fluent(tp):
+        # the parsed values reach the store directly, or through a local name for one of its members (`group = store[key]; group.add(v)`)
+        if not (flows(tp, "parse_grounded_predicate") or (pa is not None and U.stored_into_member(f, p, g, pa, is_fact))) or is_fluent(tp):
             bad.append("predicates")
-        if not flows(tf, "parse_grounded_numeric_fluent") or is_fact(tf):
+        if not (flows(tf, "parse_grounded_numeric_fluent") or (fa is not None and U.stored_into_member(f, p, g, fa, is_fluent))) or is_fact(tf):
             bad.append("fluents")
     if bad:
         r.fail(Finding("C10.statewalk", f, "state-fields", f"State(..) does not receive the parsed facts as `predicates` and the parsed fluents as `fluents` "
